@@ -67,7 +67,7 @@ def finish(chk, col, pid):
         "at most 2 (quick) / 3 (thorough) concurrently live threads in the exhaustive model configurations and the replayed tours; thousands only in free-running batches",
         "kernel steps after a thread's last user-space point (munmap of its own stack, exit, clear-tid store, futex wake) are separate steps in the exhaustive model but one step in the replay (a user-space scheduler cannot interleave them)",
         "happens-before is judged from the memory-ordering argument of the loads of the exit futex word as reported by the tiny_std::verif shim; atomic accesses are sequentially consistent in the model; hardware reorderings are not observed",
-        "use after release is judged from the order of announced accesses (protocol points) and logged frees; freed memory is not poisoned",
+        "use after release is judged from the order of announced accesses (protocol points) and logged frees; unannounced accesses are only seen through their consequences (freed blocks are filled with 0xDE)",
         "the probe's global allocator is its counting wrapper around Mutex<Dlmalloc>, the same composition as tiny-std's global-allocator feature, not that feature's private static itself",
         "spurious futex returns are produced by a real process-shared FUTEX_WAKE from another thread; EINTR (signal delivery during the wait) is not produced",
         "fault injection covers the two system calls spawn performs (stack mmap, clone); allocation failure inside spawn is not injected",
